@@ -247,7 +247,19 @@ class Gen:
             out.append('    log_ret_err("%s", e.id);' % info["denyfn"])
             out.append("    e")
             out.append("}")
-        if info["vfn"]:
+        if info["vfn"] and d["validate"] == "own":
+            # the function returns the container's own error type: the failure is still handed to that type (MergeWithError<Self>)
+            out.append("fn %s(v: %s, loc: deserr::ValuePointerRef) -> Result<%s, %s> {" % (info["vfn"], name, name, d["error"]))
+            out.append('    log_call("%s", vec![v.to_j(), loc_rv(loc)]);' % info["vfn"])
+            out.append("    if designated_v(&v.to_j()) {")
+            out.append("        let id = crate::rt::fresh_id();")
+            out.append('        log_ret_err("%s", id);' % info["vfn"])
+            out.append("        return Err(%s { ids: vec![id] });" % d["error"])
+            out.append("    }")
+            out.append('    log_ret_ok("%s", v.to_j());' % info["vfn"])
+            out.append("    Ok(v)")
+            out.append("}")
+        elif info["vfn"]:
             out.append("fn %s(v: %s, loc: deserr::ValuePointerRef) -> Result<%s, FnErr> {" % (info["vfn"], name, name))
             out.append('    log_call("%s", vec![v.to_j(), loc_rv(loc)]);' % info["vfn"])
             out.append("    if designated_v(&v.to_j()) {")
@@ -291,7 +303,7 @@ class Gen:
         if d.get("tag"): cattrs.append('tag = "%s"' % d["tag"])
         if d["error"]: cattrs.append("error = %s" % d["error"])
         if d["deny"] == "fn": cattrs.append("deny_unknown_fields = %s" % info["denyfn"])
-        if d["validate"]: cattrs.append("validate = %s -> FnErr" % info["vfn"])
+        if d["validate"]: cattrs.append("validate = %s -> %s" % (info["vfn"], d["error"] if d["validate"] == "own" else "FnErr"))
         gens = info.get("generics") or []
         for g in gens:
             if not g[2]:
